@@ -9,7 +9,7 @@ func init() {
 		ID: "C18",
 		Decides: "(R18.1) in SuffrageStateBuilder.prove the slot index computed from a remote proof's suffrage height is tested to be within [0, len) before the slot store (a negative index panics inside a worker goroutine), and every neighbour access is guarded; " +
 			"(R18.2) a proof fetched for a suffrage height is used only if its own suffrage height equals the requested one, was found and fetched without error; " +
-			"(R18.3) every fetched proof is proved against the local previous state (slot 0) or its stored neighbours under the prove lock; the remote's last proof is validated before anything is built on it; Build reports success only after the batch build succeeded; " +
+			"(R18.3) every fetched proof is proved against the local previous state (slot 0) or its stored neighbours under the prove lock; the remote's last proof is validated before anything is built on it; Build reports success only after the batch build succeeded, and BatchWork drops no batch's error; " +
 			"(R18.4) the proofs of a finished batch are handed over before the batch list is replaced (the returned chain covers all batches).",
 		NotDecided: "panics inside the remote proofs' own methods for malformed objects (they are decoded and validated by the network client); the fixed-tree proof itself (C12/C13).",
 		Run:        runC18,
@@ -42,6 +42,7 @@ func runC18(c *Ctx) {
 				c.MP(job, "job success: proved", succ, 1, GOk("call("+c.FuncKey(inner)+")()"))
 			}
 		}
+		batchWorkErrRules(c, "R18.3")
 		c.Rule("R18.3", "MustPass")
 		c.MP(parent, "batch build success: BatchWork succeeded", c.SuccessReturns(parent), 1, GOkTo("util.BatchWork"))
 		bw := c.CallsTo(parent, "util.BatchWork")
